@@ -4,6 +4,8 @@ import Q1t.Model.Builders
 import Q1t.Model.ExportClass
 import Q1t.Spec.WellFormed
 import Q1t.Gen.MacroMethods
+import Q1t.Model.ExportBridge
+import Driver.C12Parse
 /-!
 Driver for C18 (see `harness/src/bin/c18.rs` for the line protocol).  Every request line carries the
 register sizes and the whole call sequence; the driver runs the builder model on it and answers
@@ -255,8 +257,17 @@ def handle (line : String) : String :=
       let (circ, results) := buildAll nq nc cs
       match sizes.head?, rest with
       | some "build", [] => " ; ".intercalate results ++ s!" | nops {circ.ops.length}"
-      | some "oq", [] => showCls (openQasmCls circ)
-      | some "cq", [] => showCls (cQasmCls circ)
+      | some "oq", [] =>
+        -- the C11 exporter model on the image of the circuit, cross-checked with the fast classifier
+        let m := match Q1t.OpenQasm.exportCircuit Q1t.OpenQasm.libTable (Q1t.OpenQasm.ofCirc circ) with
+          | .ok _ => "ok" | .err _ => "err" | .panic => "panic"
+        let k := showCls (openQasmCls circ)
+        if m = k then m else s!"classifier-disagrees model={m} class={k}"
+      | some "cq", [] =>
+        let m := match Q1t.CQ.exportText Q1t.Gen.cqGates C12.floatNum (Q1t.CQ.ofCirc circ) with
+          | .ok _ => "ok" | .err _ => "err" | .panic => "panic"
+        let k := showCls (cQasmCls circ)
+        if m = k then m else s!"classifier-disagrees model={m} class={k}"
       | some "latex", [] => showLatex (latexOutcome circ)
       | some "macro", [] => showMacro cs (runMacro Q1t.Gen.checkedMethods nq nc cs)
       | some "pair", _ => "ok"
